@@ -165,7 +165,7 @@ class Built:
                     self.nested_done += 1
                     self.done_kinds.add(kind)
             if kind == "c":
-                sm.transition(key).events.called.register(cb)
+                transition_object(sm, key).events.called.register(cb)
             elif kind == "e":
                 self.states[key].events.enter.register(cb)
             else:
@@ -188,6 +188,14 @@ class HandlerBoom(Exception):
 
 RAISES = (WrongSourceStateError, UnknownTransitionError, HandlerBoom)
 PENDING = []   # violations whose class depends on what the model of the unchanged code says: (violation dict, driver line)
+
+
+def transition_object(sm, name):
+    """the first Transition of that name, found without going through the engine's own lookup (which is under test)"""
+    for tr in sm._transitions:
+        if tr.name == name:
+            return tr
+    raise KeyError(name)
 
 
 def errname(exc):
@@ -332,42 +340,122 @@ SETTLED: dict = {}
 
 
 # ------------------------------------------------------------------------------------------------ baton scheduler
+REQUIRED_STEPS = ["lookup", "check", "leave", "readOld", "setCur", "enter", "called"]   # `log` has no effect: optional
+
+
 def line_labels():
-    """map line number of StateMachine._perform_transition -> model step label, by the line's text"""
+    """line number of `StateMachine._perform_transition` -> (model step labels, statement id), found by the SHAPE of the syntax tree:
+
+      lookup  : the statement that calls `self.transition(...)` (or reads `self._transitions`)
+      check   : the test of the `if` one of whose branches raises `WrongSourceStateError`; the raising branch is `raise` (no model step)
+      log     : a call through `self._logger`                                   (optional)
+      leave   : the statement containing a `.leave(...)` call
+      enter   : the statement containing a `.enter(...)` call
+      readOld : the assignment to the local that is passed to `.enter(...)`, reading `self._current_state`
+      setCur  : the assignment whose target is `self._current_state`          (one statement doing both is `readOld`+`setCur`)
+      called  : the call of the transition object (`transition()`)
+
+    Extra local assignments, renamed locals, `with`/`try` wrappers and statements spread over several lines do not matter (all lines
+    of a statement carry its label; unlabelled statements are switch points without a model step).  The tie is broken only if one of
+    the required operations is absent or their order differs: returns (labels, problems)."""
+    import ast
+    import textwrap
     src, first = inspect.getsourcelines(StateMachine._perform_transition)
+    fn = ast.parse(textwrap.dedent("".join(src))).body[0]
+    off = first - 1
+
+    def has_call_attr(node, attr):
+        return any(isinstance(c, ast.Call) and isinstance(c.func, ast.Attribute) and c.func.attr == attr for c in ast.walk(node))
+
+    def is_self_attr(n, attr):
+        return isinstance(n, ast.Attribute) and isinstance(n.value, ast.Name) and n.value.id == "self" and n.attr == attr
+
+    def raises_wrong_source(stmts):
+        for st in stmts:
+            for n in ast.walk(st):
+                if isinstance(n, ast.Raise) and n.exc is not None and "WrongSourceStateError" in ast.unparse(n.exc):
+                    return True
+        return False
+
+    # the local handed to .enter(...)
+    enter_arg = None
+    lookup_var = None
+    for n in ast.walk(fn):
+        if isinstance(n, ast.Call) and isinstance(n.func, ast.Attribute) and n.func.attr == "enter" and n.args and isinstance(n.args[0], ast.Name):
+            enter_arg = n.args[0].id
+        if isinstance(n, ast.Assign) and len(n.targets) == 1 and isinstance(n.targets[0], ast.Name) and has_call_attr(n.value, "transition"):
+            lookup_var = n.targets[0].id
+    labelled = []   # (first line, last line, labels)
+
+    def put(node, labs, last=None):
+        labelled.append((node.lineno + off, (last if last is not None else node.end_lineno) + off, tuple(labs)))
+
+    def classify(st):
+        labs = []
+        if has_call_attr(st, "transition") or any(is_self_attr(n, "_transitions") for n in ast.walk(st)):
+            labs.append("lookup")
+        if any(isinstance(c, ast.Call) and "_logger" in ast.unparse(c.func) for c in ast.walk(st)):
+            return ["log"]
+        if has_call_attr(st, "leave"):
+            labs.append("leave")
+        if isinstance(st, (ast.Assign, ast.AnnAssign)):
+            targets = st.targets if isinstance(st, ast.Assign) else [st.target]
+            flat = [e for t in targets for e in (t.elts if isinstance(t, ast.Tuple) else [t])]
+            reads_cur = st.value is not None and any(is_self_attr(n, "_current_state") and isinstance(n.ctx, ast.Load) for n in ast.walk(st.value))
+            if reads_cur and any(isinstance(e, ast.Name) and e.id == enter_arg for e in flat):
+                labs.append("readOld")
+            if any(is_self_attr(e, "_current_state") for e in flat):
+                labs.append("setCur")
+        if has_call_attr(st, "enter"):
+            labs.append("enter")
+        if isinstance(st, ast.Expr) and isinstance(st.value, ast.Call) and not st.value.args and (
+                (isinstance(st.value.func, ast.Name) and (lookup_var is None or st.value.func.id == lookup_var))
+                or (isinstance(st.value.func, ast.Attribute) and st.value.func.attr == "__call__")):
+            labs.append("called")
+        return labs
+
+    def walk(stmts):
+        for st in stmts:
+            if isinstance(st, ast.If) and (raises_wrong_source(st.body) or raises_wrong_source(st.orelse)):
+                body0 = (st.body or st.orelse)[0]
+                put(st, ["check"], last=body0.lineno - 1 if body0.lineno > st.lineno else st.lineno)
+                bad, good = (st.body, st.orelse) if raises_wrong_source(st.body) else (st.orelse, st.body)
+                for b in bad:
+                    put(b, ["raise"])
+                walk(good)
+            elif isinstance(st, ast.Raise):
+                put(st, ["raise"])
+            elif isinstance(st, (ast.With, ast.Try)):
+                walk(st.body)
+                for h in getattr(st, "handlers", []):
+                    walk(h.body)
+                walk(getattr(st, "orelse", []))
+                walk(getattr(st, "finalbody", []))
+            elif isinstance(st, ast.If):
+                walk(st.body)
+                walk(st.orelse)
+            elif isinstance(st, (ast.For, ast.While)):
+                labs = classify(st)
+                if labs:
+                    put(st, labs)
+            else:
+                labs = classify(st)
+                if labs:
+                    put(st, labs)
+    walk(fn.body)
     labels = {}
-    in_raise = False
-    missing = {"lookup", "check", "log", "leave", "readOld", "setCur", "enter", "called"}
-    for off, line in enumerate(src):
-        t = line.strip()
-        ln = first + off
-        lab = None
-        if t.startswith("transition = self.transition("):
-            lab = "lookup"
-        elif t.startswith("if self._current_state") and " not in " in t:
-            lab = "check"
-        elif t.startswith("raise WrongSourceStateError"):
-            lab, in_raise = "raise", not t.endswith(")")
-        elif in_raise:
-            lab = "raise"
-            if t == ")":
-                in_raise = False
-        elif t.startswith("self._logger.debug("):
-            lab = "log"
-        elif t.startswith("self._current_state.leave("):
-            lab = "leave"
-        elif t.startswith("old_state = self._current_state"):
-            lab = "readOld"
-        elif t.startswith("self._current_state = transition.destination"):
-            lab = "setCur"
-        elif t.startswith("transition.destination.enter(old_state)"):
-            lab = "enter"
-        elif t == "transition()":
-            lab = "called"
-        if lab:
-            labels[ln] = lab
-            missing.discard(lab)
-    return labels, sorted(missing)
+    for sid, (a_, b_, labs) in enumerate(labelled):
+        for ln in range(a_, b_ + 1):
+            labels.setdefault(ln, (labs, sid))
+    # required operations present, each once, in this order
+    seq = [l for _, _, labs in sorted(labelled) for l in labs if l in REQUIRED_STEPS]
+    problems = []
+    for l in REQUIRED_STEPS:
+        if seq.count(l) != 1:
+            problems.append(f"{l}: found {seq.count(l)} times")
+    if not problems and seq != REQUIRED_STEPS:
+        problems.append("order " + ",".join(seq))
+    return labels, problems
 
 
 class Sched:
@@ -387,9 +475,14 @@ class Sched:
         self.target = StateMachine._perform_transition.__code__
 
     def _tracer(self, tid):
+        last = {}   # frame id -> statement id of the previous line event (all lines of one statement are ONE switch point)
+
         def local(frame, event, _arg):
             if event == "line":
-                self._yield(tid, self.labels.get(frame.f_lineno, "?" + str(frame.f_lineno)))
+                labs, sid = self.labels.get(frame.f_lineno, (("?" + str(frame.f_lineno),), -frame.f_lineno))
+                if last.get(id(frame)) != sid:
+                    last[id(frame)] = sid
+                    self._yield(tid, "+".join(labs))
             return local
 
         def glob(frame, _event, _arg):
@@ -486,7 +579,16 @@ def race_case(res, drv_lines, d, a, bname, schedule, labels):
     out = sch.run([call(b.sm, a), call(b.sm, bname)])
     if sch.stuck:
         return None
-    steps = [(t, l) for t, l in sch.trace if l != "raise" and not l.startswith("?")]   # lines without a model step (raise arguments, a `with lock:` line)
+    # model steps: a statement doing two labelled operations counts as both; statements without a model step (the raise, extra locals,
+    # a `with lock:` line) are dropped; the effect-free `log` step of the model is supplied where the source has none
+    steps = []
+    for t, l in sch.trace:
+        for part in l.split("+"):
+            if part == "raise" or part.startswith("?"):
+                continue
+            if part == "leave" and not any(t2 == t and l2 == "log" for t2, l2 in steps):
+                steps.append((t, "log"))
+            steps.append((t, part))
     ans = f"ok {b.show()} res={out.get(0)},{out.get(1)}"
     line = f"sm sched {fmt_machine(d)} A={a} B={bname} S=" + (",".join(f"{t}.{l}" for t, l in steps) or "-")
     drv_lines.append(line)
@@ -811,7 +913,7 @@ def shipped_raising_handlers(res, rng, drv, big):
             sm._perform_transition(req)
             done.append(1)
         if kind == "c":
-            sm.transition(key).events.called.register(cb)
+            transition_object(sm, key).events.called.register(cb)
         else:
             getattr(states[key].events, "enter" if kind == "e" else "leave").register(cb)
         impl = named_run(sm, states, seq)
@@ -929,7 +1031,7 @@ def main():
                                 raise HandlerBoom()
                             sm._perform_transition(hreq)
                         if hk[0] == "c":
-                            sm.transition(hk[2:]).events.called.register(cb)
+                            transition_object(sm, hk[2:]).events.called.register(cb)
                         else:
                             getattr(states_[int(hk[1:])].events, "enter" if hk[0] == "e" else "leave").register(cb)
                     impl = named_run(sm, states_, seq)
@@ -999,7 +1101,9 @@ def main():
 
     labels, missing = line_labels()
     if missing:
-        res.disagree("line mapping of StateMachine._perform_transition lost (tie broken)", {"missing": missing}, "8 labelled lines", sorted(set(labels.values())))
+        res.disagree("a labelled operation of StateMachine._perform_transition is absent or out of order (tie broken)", {"problems": missing},
+                     "lookup, check, [log,] leave, readOld, setCur, enter, called - each once, in this order",
+                     [f"{ln}:{'+'.join(labs)}" for ln, (labs, _) in sorted(labels.items())])
     else:
         sched_lines, sched_cases, sched_answers = [], [], []
         todo = [(CONN, "select", "disconnect", RACE_SCHEDULE, True)]
